@@ -52,7 +52,9 @@ func cmdFor(p *lang.Process) (err error) {
 
 	for {
 		if p.HasCancelled() {
-			return errors.New(errCancelled)
+			// `break`, `continue` and `return` end a loop by cancelling it: like
+			// `foreach` and `while { } { }`, that is not a failure of the loop
+			return nil
 		}
 
 		fork := p.Fork(lang.F_PARENT_VARTABLE | lang.F_NO_STDIN | lang.F_CREATE_STDOUT)
